@@ -81,9 +81,19 @@ def handle (op : String) (j : Json) : Option (Except String Json) :=
   | "c19.phys.select" => some do
       let nq ← J.nat (← J.field j "nq"); let nt ← J.nat (← J.field j "nt")
       let feas ← J.listOf J.bool (← J.field j "feasible")
-      let cands := candidates nq nt
+      let withT ← match J.fieldD j "with_t" (Json.bool true) with
+        | Json.bool bb => .ok bb
+        | _ => .error "with_t: expected a Boolean"
+      let cands := candidatesFor withT nq nt
       .ok (J.obj [("cands", J.ofList (fun (c : Nat × Nat) => J.ofNatList [c.1, c.2]) cands),
                   ("best", ofOpt (fun (b : Nat × Nat × Nat) => J.ofNatList [b.1, b.2.1, b.2.2]) (selectBest cands feas))])
+  | "c19.phys.estimate" => some do
+      -- one direct AlgorithmParameters(...).estimate_cost call: factory given by (l1, l2) or the T factory (l1 = 0)
+      let l1 ← J.nat (← J.field j "l1"); let l2 ← J.nat (← J.field j "l2")
+      let f : Factory := if l1 = 0 then tFactory else autocczFactory l1 l2
+      let r := estimateCostG (← J.nat (← J.field j "nq")) (← J.nat (← J.field j "nt")) (← J.nat (← J.field j "dist")) f
+        (← J.rat (← J.field j "routing")) (← J.nat (← J.field j "fcount"))
+      .ok (J.ofNatList [r.1, r.2])
   | "c19.spec.select" => some do
       let cands ← J.listOf (fun c => do let l ← J.natList c; .ok (l.getD 0 0, l.getD 1 0)) (← J.field j "cands")
       let feas ← J.listOf J.bool (← J.field j "feasible")
